@@ -68,9 +68,9 @@ func crHit(name string) { crec.add("hit:" + name) }
 func crRes(v any)       { crec.add("res:" + fmt.Sprint(v)) }
 func crMark()           { crec.add("mark") }
 
-// crWait waits (at most two seconds) for the callee started by a go statement.
-func crWait() {
-	for t0 := time.Now(); crec.hits() == 0 && time.Since(t0) < 2*time.Second; {
+// crWait waits (at most two seconds) for the n calls that a go statement starts.
+func crWait(n int) {
+	for t0 := time.Now(); crec.hits() < n && time.Since(t0) < 2*time.Second; {
 		time.Sleep(50 * time.Microsecond)
 	}
 }
@@ -218,8 +218,8 @@ func Hit(name string) { add("hit:" + name) }
 func Res(v any)       { add("res:" + fmt.Sprint(v)) }
 func Mark()           { add("mark") }
 func Panicked()       { add("panic") }
-func Wait() {
-	for t0 := time.Now(); hits() == 0 && time.Since(t0) < 2*time.Second; {
+func Wait(n int) {
+	for t0 := time.Now(); hits() < n && time.Since(t0) < 2*time.Second; {
 		time.Sleep(50 * time.Microsecond)
 	}
 }
@@ -360,6 +360,7 @@ type callKind struct {
 	noTmpl         bool   // programs only
 	noHit          bool   // the callee does not record its call (functions of the builtin package)
 	nilFn          bool   // a nil function value: the call panics
+	calls          int    // the number of recorded calls if not one (the callee calls its argument)
 	raw            string // native kinds with an environment parameter: the Go type of the function
 	neverBuilds    bool   // a Go builtin: cannot be used as a value
 	mv             bool   // a method value (the virtual machine keeps it as a bound Go func value)
@@ -388,10 +389,12 @@ func callKinds() []callKind {
 		{name: "natI", typ: "func(int) int", expr: "x.NatI", args: "3", res: true},
 		{name: "natEnvI", typ: "func(int) int", expr: "x.NatEnvI", args: "3", res: true, raw: "func(native.Env, int) int"},
 		{name: "natV", typ: "func(...int) int", expr: "x.NatV", args: "1, 2, 3", res: true},
+		{name: "natV-spread", typ: "func(...int) int", pre: "var xs§ = []int{1, 2, 3}\nvar _ = xs§", expr: "x.NatV", args: "xs§...", res: true},
+		{name: "litV-spread", typ: "func(...int) int", pre: "var xs§ = []int{1, 2, 3}\nvar _ = xs§", expr: `func(a ...int) int { x.Hit("litV"); return len(a) }`, args: "xs§...", res: true},
 		{name: "natEnvV", typ: "func(...int) int", expr: "x.NatEnvV", args: "1, 2, 3", res: true, raw: "func(native.Env, ...int) int"},
 		{name: "natEnvV-spread", typ: "func(...int) int", pre: "var xs§ = []int{1, 2, 3}\nvar _ = xs§", expr: "x.NatEnvV", args: "xs§...", res: true, raw: "func(native.Env, ...int) int"},
 		{name: "natEnvV-none", typ: "func(...int) int", expr: "x.NatEnvV", args: "", res: true, raw: "func(native.Env, ...int) int"},
-		{name: "natEnvF", typ: "func(func())", expr: "x.NatEnvF", args: `func() { x.Hit("arg") }`, raw: "func(native.Env, func())"},
+		{name: "natEnvF", calls: 2, typ: "func(func())", expr: "x.NatEnvF", args: `func() { x.Hit("arg") }`, raw: "func(native.Env, func())"},
 		// natives with the signatures the virtual machine calls without reflect, functions of the builtin package
 		{name: "natSSB", typ: "func(string, string) bool", expr: "x.NatSSB", args: `"abc", "ab"`, res: true},
 		{name: "natSI", typ: "func(string, int) string", expr: "x.NatSI", args: `"abc", 2`, res: true},
@@ -443,6 +446,7 @@ func callKinds() []callKind {
 type cx struct {
 	T, E, A string
 	res     bool
+	N       int // the number of calls the one call makes (the callee may call its argument)
 }
 
 // Call is the one call of the callable through the expression f.
@@ -688,10 +692,10 @@ func storages() []storage {
 			return f("func() {\ndefer func() { recover() }()\nfv := %s\ndefer %s\npanic(\"P\")\n}()", c.E, c.Bare("fv"))
 		})},
 		{name: "defer-main", body: body(func(c cx) string { return f("fv := %s\ndefer %s", c.E, c.Bare("fv")) })},
-		{name: "go-direct", goStmt: true, body: body(func(c cx) string { return f("go %s\nx.Wait()", c.Bare(c.E)) })},
-		{name: "go-local", goStmt: true, body: body(func(c cx) string { return f("fv := %s\ngo %s\nx.Wait()", c.E, c.Bare("fv")) })},
-		{name: "go-element", goStmt: true, reflect: true, body: body(func(c cx) string { return f("fs := []%s{%s}\ngo %s\nx.Wait()", c.T, c.E, c.Bare("fs[0]")) })},
-		{name: "go-closure", goStmt: true, reflect: true, body: body(func(c cx) string { return f("fv := %s\ngo func() { %s }()\nx.Wait()", c.E, c.Bare("fv")) })},
+		{name: "go-direct", goStmt: true, body: body(func(c cx) string { return f("go %s\nx.Wait(%d)", c.Bare(c.E), c.N) })},
+		{name: "go-local", goStmt: true, body: body(func(c cx) string { return f("fv := %s\ngo %s\nx.Wait(%d)", c.E, c.Bare("fv"), c.N) })},
+		{name: "go-element", goStmt: true, reflect: true, body: body(func(c cx) string { return f("fs := []%s{%s}\ngo %s\nx.Wait(%d)", c.T, c.E, c.Bare("fs[0]"), c.N) })},
+		{name: "go-closure", goStmt: true, reflect: true, body: body(func(c cx) string { return f("fv := %s\ngo func() { %s }()\nx.Wait(%d)", c.E, c.Bare("fv"), c.N) })},
 		// comparison with nil
 		{name: "nil-compare-local", nilCmp: true, noCall: true, body: body(func(c cx) string { return f("fv := %s\nif fv != nil {\nx.Mark()\n}", c.E) })},
 		{name: "nil-compare-local-eq", nilCmp: true, noCall: true, body: body(func(c cx) string { return f("var fv %s = %s\nif fv == nil {\nx.Mark()\n}\nx.Mark()", c.T, c.E) })},
